@@ -197,6 +197,138 @@ fn resolve_case(
     });
 }
 
+/// Every qubit of a DEFINITION instruction (calibration identifier + body, recursively), by the harness's
+/// own traversal.  Only calibrations carry `Qubit`s among the definitions used here.
+fn def_qubits(i: &Instruction, out: &mut Vec<Qubit>) {
+    match i {
+        Instruction::CalibrationDefinition(c) => {
+            out.extend(c.identifier.qubits.iter().cloned());
+            for b in &c.instructions {
+                def_qubits(b, out);
+            }
+        }
+        Instruction::MeasureCalibrationDefinition(c) => {
+            out.push(c.identifier.qubit.clone());
+            for b in &c.instructions {
+                def_qubits(b, out);
+            }
+        }
+        other => {
+            let mut o = other.clone();
+            out.extend(all_qubits_mut(&mut o).into_iter().map(|q| q.clone()));
+        }
+    }
+}
+
+struct Call {
+    mode: Mode,
+    tmap: Vec<(TargetPlaceholder, String)>,
+    qmap: Vec<(QubitPlaceholder, u64)>,
+}
+
+fn used_sexp(names: &mut Names, p: &Program) -> Sexp {
+    let mut v: Vec<(String, Sexp)> = p
+        .get_used_qubits()
+        .iter()
+        .map(|q| {
+            let s = names.qubit(q);
+            (s.to_string(), s)
+        })
+        .collect();
+    v.sort_by(|a, b| a.0.cmp(&b.0));
+    tagged("used", v.into_iter().map(|x| x.1).collect())
+}
+
+/// A sequence of resolution calls on ONE program (definitions + body); after every call the body and the
+/// `used_qubits` cache are observed.
+fn seq_case(ctx: &mut Ctx, defs: &[Instruction], body: &[Instruction], calls: &[Call]) {
+    let mut p = Program::new();
+    p.add_instructions(defs.iter().cloned());
+    p.add_instructions(body.iter().cloned());
+    let mut names = Names::default();
+    let body_sexp = project_body(&mut names, &p);
+    let mut dq = vec![];
+    for d in defs {
+        def_qubits(d, &mut dq);
+    }
+    let defq: Vec<Sexp> = dq.iter().map(|q| names.qubit(q)).collect();
+    let mut call_sexps = vec![];
+    for c in calls {
+        let tm: Vec<Sexp> = c
+            .tmap
+            .iter()
+            .map(|(ph, l)| {
+                let n = names.targets.len() as u64;
+                let k = *names.targets.entry(ph.clone()).or_insert(n);
+                list(vec![nat(k), st(l.clone())])
+            })
+            .collect();
+        let qm: Vec<Sexp> = c
+            .qmap
+            .iter()
+            .map(|(ph, v)| {
+                let n = names.qubits.len() as u64;
+                let k = *names.qubits.entry(ph.clone()).or_insert(n);
+                list(vec![nat(k), nat(*v)])
+            })
+            .collect();
+        call_sexps.push(tagged("call", vec![atom(c.mode.name()), tagged("tmap", tm), tagged("qmap", qm)]));
+    }
+    let input = tagged("seq", vec![tagged("defq", defq), tagged("body", body_sexp), tagged("calls", call_sexps)]);
+    ctx.case(input, || {
+        let mut p = p.clone();
+        let mut steps = vec![used_sexp(&mut names, &p)];
+        for c in calls {
+            let tmap: HashMap<TargetPlaceholder, String> = c.tmap.iter().cloned().collect();
+            let qmap: HashMap<QubitPlaceholder, u64> = c.qmap.iter().cloned().collect();
+            match c.mode {
+                Mode::Default => p.resolve_placeholders(),
+                Mode::Custom => p.resolve_placeholders_with_custom_resolvers(
+                    Box::new(move |k| tmap.get(k).cloned()),
+                    Box::new(move |k| qmap.get(k).copied()),
+                ),
+                Mode::CustomTargets => {
+                    let qr = p.default_qubit_resolver();
+                    p.resolve_placeholders_with_custom_resolvers(Box::new(move |k| tmap.get(k).cloned()), qr)
+                }
+                Mode::CustomQubits => {
+                    let tr = p.default_target_resolver();
+                    p.resolve_placeholders_with_custom_resolvers(tr, Box::new(move |k| qmap.get(k).copied()))
+                }
+            }
+            steps.push(tagged("step", vec![tagged("body", project_body(&mut names, &p)), used_sexp(&mut names, &p)]));
+        }
+        tagged("seqout", steps)
+    });
+}
+
+/// Qubit placeholders of the body by operand position: (never last operand, never first operand, all).
+fn position_classes(body: &[Instruction]) -> (Vec<QubitPlaceholder>, Vec<QubitPlaceholder>, Vec<QubitPlaceholder>) {
+    let mut all: Vec<QubitPlaceholder> = vec![];
+    let mut first: Vec<QubitPlaceholder> = vec![];
+    let mut last: Vec<QubitPlaceholder> = vec![];
+    for i in body {
+        let mut c = i.clone();
+        let qs: Vec<Qubit> = all_qubits_mut(&mut c).into_iter().map(|q| q.clone()).collect();
+        for (k, q) in qs.iter().enumerate() {
+            if let Qubit::Placeholder(p) = q {
+                if !all.contains(p) {
+                    all.push(p.clone());
+                }
+                if k == 0 && !first.contains(p) {
+                    first.push(p.clone());
+                }
+                if k + 1 == qs.len() && !last.contains(p) {
+                    last.push(p.clone());
+                }
+            }
+        }
+    }
+    let never_last = all.iter().filter(|p| !last.contains(p)).cloned().collect();
+    let never_first = all.iter().filter(|p| !first.contains(p)).cloned().collect();
+    (never_last, never_first, all)
+}
+
 /// Instruction templates (parsed by the real parser); their qubit slots are then overwritten.
 const TEMPLATES: &[&str] = &[
     "X 0",
@@ -262,8 +394,9 @@ impl Gen {
     fn qubit(&self, rng: &mut Rng, pool: &Pool, max_fixed: u64) -> Qubit {
         match rng.below(10) {
             0..=3 if !pool.qph.is_empty() => Qubit::Placeholder(rng.pick(&pool.qph).clone()),
-            9 => Qubit::Variable("q".to_string()),
-            _ => Qubit::Fixed(rng.below(max_fixed)),
+            9 if max_fixed > 0 => Qubit::Variable("q".to_string()),
+            _ if max_fixed == 0 && !pool.qph.is_empty() => Qubit::Placeholder(rng.pick(&pool.qph).clone()),
+            _ => Qubit::Fixed(rng.below(max_fixed.max(1))),
         }
     }
     fn target(&self, rng: &mut Rng, pool: &Pool) -> Target {
@@ -445,5 +578,161 @@ fn run(ctx: &mut Ctx) {
             }
         }
         resolve_case(ctx, &body, mode, &tmap, &qmap);
+    }
+
+    // ---- sequences of calls on one program; body and used_qubits cache observed after every call ----
+    let cal_defs: Vec<Vec<Instruction>> = vec![
+        vec![],
+        qvh::progs::parse_all("DEFCAL X 0:\n\tPULSE 0 \"rf\" wf\nDEFCAL CZ 0 1:\n\tFENCE 0 1"),
+        qvh::progs::parse_all("DEFCAL X q:\n\tSET-PHASE q \"rf\" 1\nDEFCAL MEASURE 2 addr:\n\tFENCE 2\nDECLARE ro BIT[2]"),
+    ];
+    let gate2 = |name: &str, a: Qubit, b: Qubit| {
+        let mut i = parse_body(&format!("{name} 0 1"));
+        let mut qs = all_qubits_mut(&mut i);
+        *qs[0] = a;
+        *qs[1] = b;
+        i
+    };
+    let partial = |set: &[QubitPlaceholder], base: u64| -> Vec<(QubitPlaceholder, u64)> {
+        set.iter().enumerate().map(|(i, p)| (p.clone(), base + i as u64)).collect()
+    };
+    let dflt = || Call { mode: Mode::Default, tmap: vec![], qmap: vec![] };
+
+    // 4. corpus of sequences
+    {
+        let q: Vec<QubitPlaceholder> = (0..4).map(|_| QubitPlaceholder::default()).collect();
+        let ph = |i: usize| Qubit::Placeholder(q[i].clone());
+        let ta = TargetPlaceholder::new("a".to_string());
+        let tb = TargetPlaceholder::new("a".to_string());
+        let bodies: Vec<Vec<Instruction>> = vec![
+            // placeholders only; a partial resolver that leaves the LAST operand of every instruction open
+            vec![gate2("CZ", ph(1), ph(2)), gate2("CNOT", ph(1), ph(3))],
+            // … the FIRST operand open
+            vec![gate2("CZ", ph(2), ph(1)), gate2("CNOT", ph(3), ph(1))],
+            // some fixed qubits in the body
+            vec![gate2("CZ", ph(1), ph(2)), x(Qubit::Fixed(1)), gate2("CNOT", ph(1), ph(3))],
+            // labels too
+            vec![label(Target::Placeholder(ta.clone())), gate2("CZ", ph(1), ph(2)), jump(Target::Placeholder(tb.clone())),
+                 label(Target::Placeholder(tb.clone()))],
+            vec![set_phase(ph(1)), gate2("CZ", ph(1), ph(2))],
+        ];
+        for defs in &cal_defs {
+            for b in &bodies {
+                for v in [0u64, 1, 5] {
+                    seq_case(ctx, defs, b, &[Call { mode: Mode::Custom, tmap: vec![], qmap: vec![(q[1].clone(), v)] }, dflt()]);
+                    seq_case(ctx, defs, b, &[Call { mode: Mode::CustomQubits, tmap: vec![], qmap: vec![(q[1].clone(), v)] }, dflt()]);
+                }
+                seq_case(ctx, defs, b, &[dflt(), dflt()]);
+                seq_case(ctx, defs, b, &[dflt(), Call { mode: Mode::Custom, tmap: vec![], qmap: vec![(q[2].clone(), 0)] }]);
+                seq_case(ctx, defs, b, &[
+                    Call { mode: Mode::Custom, tmap: vec![(ta.clone(), "a_0".to_string())], qmap: vec![(q[2].clone(), 0)] },
+                    Call { mode: Mode::CustomTargets, tmap: vec![], qmap: vec![] },
+                    dflt(),
+                ]);
+                seq_case(ctx, defs, b, &[
+                    Call { mode: Mode::Custom, tmap: vec![], qmap: vec![(q[1].clone(), 0)] },
+                    Call { mode: Mode::Custom, tmap: vec![], qmap: vec![(q[3].clone(), 1)] },
+                    dflt(),
+                ]);
+            }
+        }
+    }
+
+    // 5. exhaustive small bodies over placeholder-only instructions x every position pattern x then default
+    {
+        let q: Vec<QubitPlaceholder> = (0..3).map(|_| QubitPlaceholder::default()).collect();
+        let mut alphabet: Vec<Instruction> = vec![];
+        for a in 0..3 {
+            alphabet.push(x(Qubit::Placeholder(q[a].clone())));
+            for b in 0..3 {
+                if a != b {
+                    alphabet.push(gate2("CZ", Qubit::Placeholder(q[a].clone()), Qubit::Placeholder(q[b].clone())));
+                }
+            }
+        }
+        alphabet.push(x(Qubit::Fixed(0)));
+        let max_len = if quick { 2 } else { 3 };
+        let mut bodies: Vec<Vec<Instruction>> = vec![vec![]];
+        let mut lastv: Vec<Vec<Instruction>> = vec![vec![]];
+        for _ in 0..max_len {
+            let mut next = vec![];
+            for b in &lastv {
+                for a in &alphabet {
+                    let mut t = b.clone();
+                    t.push(a.clone());
+                    next.push(t);
+                }
+            }
+            bodies.extend(next.iter().cloned());
+            lastv = next;
+        }
+        for (bi, b) in bodies.iter().enumerate() {
+            let (never_last, never_first, all) = position_classes(b);
+            let alternate: Vec<QubitPlaceholder> = all.iter().step_by(2).cloned().collect();
+            let defs = &cal_defs[bi % cal_defs.len()];
+            for set in [&never_last, &never_first, &alternate] {
+                if set.is_empty() {
+                    continue;
+                }
+                seq_case(ctx, defs, b, &[Call { mode: Mode::Custom, tmap: vec![], qmap: partial(set, 0) }, dflt()]);
+            }
+            seq_case(ctx, defs, b, &[dflt(), dflt()]);
+        }
+    }
+
+    // 6. random sequences of 2-3 calls
+    let mut rng = ctx.rng(3434);
+    let n_seq = if quick { 4000 } else { 120_000 };
+    for _ in 0..n_seq {
+        let (nq, nt) = (1 + rng.below(4), rng.below(4));
+        let pool = g.pool(&mut rng, nq, nt);
+        let len = 1 + rng.below(8);
+        // a third of the bodies have no fixed qubit at all
+        let max_fixed = if rng.chance(1, 3) { 0 } else { 1 + rng.below(5) };
+        let frames = rng.chance(1, 4);
+        let body: Vec<Instruction> = (0..len).map(|_| g.instruction(&mut rng, &pool, frames, max_fixed)).collect();
+        let defs = rng.pick(&cal_defs).clone();
+        let (never_last, never_first, all) = position_classes(&body);
+        let n_calls = 2 + rng.below(2);
+        let mut calls = vec![];
+        for ci in 0..n_calls {
+            let mode = if ci + 1 == n_calls && rng.chance(2, 3) {
+                Mode::Default
+            } else {
+                match rng.below(5) {
+                    0 => Mode::Default,
+                    1 => Mode::CustomTargets,
+                    2 => Mode::CustomQubits,
+                    _ => Mode::Custom,
+                }
+            };
+            let mut tmap = vec![];
+            let mut qmap = vec![];
+            if mode != Mode::Default {
+                for p in &pool.tph {
+                    if rng.chance(1, 2) {
+                        tmap.push((p.clone(), rng.pick(FIXED_LABELS).to_string()));
+                    }
+                }
+                let base = rng.below(3);
+                qmap = match rng.below(5) {
+                    0 => partial(&never_last, base),
+                    1 => partial(&never_first, base),
+                    2 => partial(&all.iter().step_by(2).cloned().collect::<Vec<_>>(), base),
+                    3 => partial(&all.iter().skip(1).step_by(2).cloned().collect::<Vec<_>>(), base),
+                    _ => {
+                        let mut m = vec![];
+                        for p in &all {
+                            if rng.chance(1, 2) {
+                                m.push((p.clone(), rng.below(6)));
+                            }
+                        }
+                        m
+                    }
+                };
+            }
+            calls.push(Call { mode, tmap, qmap });
+        }
+        seq_case(ctx, &defs, &body, &calls);
     }
 }
